@@ -353,6 +353,8 @@ class Folder(FileSystemItemABC):
                 file.scan()
                 if file.visible_health_status == FileSystemItemHealthStatus.CORRUPT:
                     self.visible_health_status = FileSystemItemHealthStatus.CORRUPT
+                    # the visible status was updated by a scan in this step, let observers know
+                    self._scanned_this_step = True
             return True
 
         if self.scan_countdown <= 0:
